@@ -90,6 +90,31 @@ def post(run, cases, impl, model):
                                "detail": "run with default ASan fill vs malloc_fill_byte=0x5a", "case": DC.case_payload(c)},
                               found_input=True, classes=cl)
                 break
+    # the bundled plain bitmap (BitSequenceRG: DAC level bitmaps, FM-index and hash bitmaps) at the boundary lengths the
+    # dictionary cases reach only about once in 32 inputs: n = 0 mod 32 and its neighbours, every factor; image bytes under both fills
+    from props import gen_bits
+    from vlib import Case
+    rnd = __import__("random").Random(run.seed * 31 + 5)
+    rg = []
+    for factor in (1, 2, 4, 20):
+        for n in (32, 64, 96, 31, 33, 320, 1024, 32 * 20, 32 * 20 * 3, 2048 - 32):
+            for pat in ("d50", "one", "last0"):
+                bits = gen_bits.mk_bits(rnd, n, pat)
+                rg.append(Case("C08-rg-f%d-n%d-%s" % (factor, n, pat), ["bs_build RG %d %s" % (factor, "".join(map(str, bits))), "bs_image"],
+                               {"kind": "RG", "factor": factor, "n": n, "pat": pat}))
+    o1 = vlib.run_cases(exe, rg, tag="impl-rg")
+    o2 = vlib.run_cases(exe, rg, tag="impl-rg-fill", env=fill)
+    for c in rg:
+        a, b = o1.get(c.name, {"lines": []}), o2.get(c.name, {"lines": []})
+        run.count((c.name, tuple(c.cmds)), nontrivial=True)
+        if a["lines"] != b["lines"] or len(a["lines"]) < 2:
+            nd += 1
+            run.violation("BitSequenceRG(factor %d) over %d bits: saved image depends on the heap fill pattern (uninitialised memory in the image)"
+                          % (c.meta["factor"], c.meta["n"]),
+                          {"kind": "RG", "operation": "save", "command": c.cmds[0][:200], "detail": "bs_image under default ASan fill vs malloc_fill_byte=0x5a: %s vs %s"
+                           % (a["lines"][-1:][0][-60:] if a["lines"] else "-", b["lines"][-1:][0][-60:] if b["lines"] else "-"),
+                           "case": {"name": c.name, "cmds": c.cmds}}, found_input=True, classes=("uninitialised_image",))
+            break
     run.extra["fill_pattern_differences"] = nd
     run.oblige("images are independent of the heap fill pattern (no uninitialised byte is saved)", nd == 0 or not run.violations, "%d cases differ" % nd)
 
@@ -97,7 +122,7 @@ def post(run, cases, impl, model):
 CFG = DC.Config("C08", D.ALL_KINDS, make_cmds, nsets=(7, 18), big=True, extra_eval=extra_eval, post=post, serial=True,
                 rule="all 13 kinds: queries before and after save must agree, a second save must write the same bytes, a second independent build "
                      "must give a byte-identical image, the whole case list is run twice with different heap fill patterns (every image hash must "
-                     "be equal: no uninitialised byte is saved), load -> save must reproduce the image or at least an image that loads to the same "
+                     "be equal: no uninitialised byte is saved; plus BitSequenceRG images at lengths around multiples of 32 for every factor), load -> save must reproduce the image or at least an image that loads to the same "
                      "answers (queries on the object loaded from the RE-SAVED image). Non-trivial = a command; distinct by (kind, params, S, command).")
 
 
